@@ -44,16 +44,19 @@ func lowerLabels(s string) string {
 }
 
 func c14Spaces(c *fw.Ctx) {
-	c.Space("routing", fmt.Sprintf("all 2^%d subsets of the pattern universe %q × %d question names (+ no question, + two questions) × types {A, DS} × request headers (opcode query/notify/update × RD,CD ∈ {00,11}): handler chosen / REFUSED skeleton vs ref/mux; non-trivial: at least two registered patterns enclose the question name", len(c14Patterns), c14Patterns, len(c14Names)), true,
+	c.Space("routing", fmt.Sprintf("all 2^%d subsets of the pattern universe %q × %d question names (+ no question, + two questions) × types {A, DS} × request headers (opcode query/notify/update × RD,CD ∈ {00,11}) × patterns registered as written / without their closing dot: handler chosen / REFUSED skeleton vs ref/mux; non-trivial: at least two registered patterns enclose the question name", len(c14Patterns), c14Patterns, len(c14Names)), true,
 		func(emit func(func(*fw.R))) {
 			for mask := 0; mask < 1<<len(c14Patterns); mask++ {
 				mask := mask
-				emit(func(r *fw.R) { c14Route(r, mask) })
+				emit(func(r *fw.R) {
+					c14Route(r, mask, false)
+					c14Route(r, mask, true) // the same patterns registered without their closing dot (Handle completes them)
+				})
 			}
 		})
 }
 
-func c14Route(r *fw.R, mask int) {
+func c14Route(r *fw.R, mask int, noDot bool) {
 	mux := dns.NewServeMux()
 	var called []string
 	reg := map[string]string{} // lower-cased wire form → pattern as registered last
@@ -62,7 +65,11 @@ func c14Route(r *fw.R, mask int) {
 			continue
 		}
 		p := p
-		mux.HandleFunc(p, func(w dns.ResponseWriter, m *dns.Msg) { called = append(called, p) })
+		spelled := p
+		if noDot && p != "." {
+			spelled = strings.TrimSuffix(p, ".")
+		}
+		mux.HandleFunc(spelled, func(w dns.ResponseWriter, m *dns.Msg) { called = append(called, p) })
 		reg[lowerLabels(p)] = p
 	}
 	type qcase struct {
